@@ -39,6 +39,10 @@ def prescription():
                      st.tuples(st.just('OBNA'), f(0.01, 0.3))),
         ftype=st.sampled_from([0, 0, 1]),
         fields_y=st.lists(f(0.0, 20.0).map(lambda v: round(v, 6)), min_size=1, max_size=12, unique=True),
+        # x components of the fields (index-wise; several fields may then share one y value) and a selector that lets a
+        # y value repeat
+        fields_x=st.lists(st.sampled_from([0.0, 0.0, 0.0, 1.5, -3.0, 7.25]), min_size=12, max_size=12),
+        repeat_y=st.lists(st.integers(0, 11), max_size=3),
         wls=st.lists(f(0.45, 0.70).map(lambda v: round(v, 7)), min_size=1, max_size=12),
         prim=st.integers(0, 11), stop=st.integers(0, 40), obj_inf=st.booleans(), obj_t=f(5.0, 500.0),
         surfs=st.lists(surface_strategy(), min_size=1, max_size=28),
@@ -114,7 +118,12 @@ class C20(Check):
         if ftype == 1 and case['obj_inf']:
             ftype = 0
         nw = len(case['wls'])
-        return dict(mode=case['mode'], ap=ap, ftype=ftype, tele=False, fields_y=case['fields_y'], wls=case['wls'],
+        fy = list(case['fields_y'])
+        for r in case.get('repeat_y', []):
+            if len(fy) < 12:
+                fy.append(fy[r % len(fy)])                 # the same y again (it will carry another x)
+        fx = [case.get('fields_x', [0.0] * 12)[i] for i in range(len(fy))]
+        return dict(mode=case['mode'], ap=ap, ftype=ftype, tele=False, fields_y=fy, fields_x=fx, wls=case['wls'],
                     prim=1 + case['prim'] % nw, surfs=surfs, fmt=case['fmt'], gcat=case['gcat'], head=case.get('head', 'vers'))
 
     def check(self, case, out):
@@ -210,7 +219,12 @@ class C20(Check):
                    got=(o.aperture.ap_type, o.aperture.value), want=p['ap'])
         out.expect('field_type', o.field_type == ('angle' if p['ftype'] == 0 else 'object_height'), got=o.field_type)
         got_f = sorted((float(fd.x), float(fd.y)) for fd in o.fields.fields)
-        want_f = sorted((0.0, float(self.parse(v, case['fmt']))) for v in set(p['fields_y']))
+        want_f = sorted({(float(self.parse(x, case['fmt'])), float(self.parse(v, case['fmt'])))
+                         for x, v in zip(p['fields_x'], p['fields_y'])})
+        if any(x != 0 for x in p['fields_x']):
+            out.cls('fields_with_x_component')
+        if len(set(p['fields_y'])) < len(p['fields_y']):
+            out.cls('fields_sharing_a_y_value')
         out.expect('field_values', got_f == want_f, got=got_f, want=want_f)
         got_w = [float(w.value) for w in o.wavelengths.wavelengths]
         want_w = [float(self.parse(w, case['fmt'])) for w in p['wls']]
